@@ -123,6 +123,24 @@ def total_cases(rng, tier):
                 second = _frame(rng.choice(INVALID_ADDRS + [0o5]), rng.choice(INVALID_ADDRS + [addr]), rng.randrange(65536), rng.randrange(256), rng.randrange(256), b"")
                 frames.append([(rng.randint(0, 5), first), (rng.randint(0, 5), second)])
             cs.append((total_session(rng, kind, arg, frames), f"handled-then-discarded-{kind}"))
+    # the master waits for a NETWORK_ACK (address response routed via an existing child that acknowledges at
+    # link level) while other frames arrive: frame_buf is replaced under _dhcp()'s retry (witness of the fixed
+    # defect "retry from whatever frame the wait left in frame_buf": IndexError out of update())
+    for _ in range(4 if tier == "quick" else 60):
+        child = rng.choice([0o1, 0o2, 0o3, 0o4, 0o5])
+        via = child | (rng.randint(1, 5) << 3) | (rng.choice([0, 1, 2, 3]) << 6 if rng.random() < 0.3 else 0)
+        req = _frame(via, 0, rng.randrange(65536), 195, rng.randint(1, 255), b"")
+        ops = ["new m master 0 0", f"new c network 1 {child}", f"env inject 0 {rng.randint(1, 5)} {req}"]
+        for k in range(rng.randint(1, 3)):
+            to = rng.choice(INVALID_ADDRS + [0o6, 0o7, 0o16, 0o26, 0] + [rng.randrange(65536)])
+            frm = rng.choice([0o1, 0o5, 0o21] + INVALID_ADDRS)
+            other = _frame(frm, to, rng.randrange(65536), rng.randrange(256), rng.randrange(256),
+                           bytes(rng.randrange(256) for _ in range(rng.choice([0, 1, 2, 8]))))
+            ops.append(f"env arrive m {rng.choice([1, 2, 3, 10, 40]) * 1000000 + k} {rng.randint(0, 5)} {other}")
+        ops += ["m update", "m update"]
+        cs.append(("net 2 0 " + " ; ".join(ops), "master-ack-wait-overwrite"))
+    cs.append(("net 2 0 new m master 0 0 ; new n5 network 1 5 ; env inject 0 1 0d0000000100c307 ; "
+               "env arrive m 3000000 1 010006000200010078 ; m update", "master-ack-wait-overwrite"))
     # systematic: every type x body length 0..24 (sampled) to the master and to a mesh node, as lookups etc.
     for kind, arg in (("master", 0), ("network", 0o21), ("mesh", 0)):
         addr = 0 if kind != "network" else 0o21
@@ -137,7 +155,7 @@ def total_cases(rng, tier):
 def judge_total(triples):
     out = []
     for l, io, mo in triples:
-        if not l.startswith("net 1 0 new n "):
+        if not (l.startswith("net 1 0 new n ") or l.startswith("net 2 0 new m master ")):
             continue
         names, ops = l.split(" ; "), parse_out(io)
         pending = []
